@@ -234,6 +234,46 @@ def chunks(seq, n):
     return [seq[i : i + n] for i in range(0, len(seq), n)]
 
 
+def passed_through_library(err) -> str | None:
+    """Location of the last frame of the library under test on the exception's traceback."""
+    tb, last = err.__traceback__, None
+    while tb is not None:
+        fn = tb.tb_frame.f_code.co_filename
+        if fn.startswith(SRC.rstrip("/") + "/"):
+            last = f"{os.path.basename(fn)}:{tb.tb_lineno} in {tb.tb_frame.f_code.co_name}"
+        tb = tb.tb_next
+    return last
+
+
+def guard(judge):
+    """
+    Decorator for a check's judge(): an exception that escapes THROUGH library code and that the
+    judge's own oracles did not expect is reported as a violation of the property (the library let
+    something out that the harness, written against the property, had no reason to catch) instead
+    of taking the whole check down as a broken harness.  Exceptions that never touched a library
+    frame are harness faults and stay fatal.
+    """
+    import functools  # pylint: disable=import-outside-toplevel
+
+    @functools.wraps(judge)
+    def wrapper(case, *args, **kw):
+        try:
+            return judge(case, *args, **kw)
+        except Broken:
+            raise
+        except Exception as err:  # pylint: disable=broad-except
+            where = passed_through_library(err)
+            if where is None:
+                raise Broken(f"harness exception {err!r}\n{traceback.format_exc()}") from err
+            out = Outcome()
+            out.bad(f"exception-escapes-library:{type(err).__name__}",
+                    f"{type(err).__name__}: {err} escaped from the library ({where}) where the "
+                    f"check expected a result or a library exception")
+            return out
+
+    return wrapper
+
+
 def run_cases(judge, cases, sample_every=0):
     """Sequentially judge cases -> Stats (used inside workers)."""
     st = Stats()
